@@ -248,7 +248,11 @@ func spanNote(sh *shape) string {
 	if sh.Span == nil {
 		return ""
 	}
-	return fmt.Sprintf(" (write span: modules %v, unmoduled %v)", sh.Span.Modules, sh.Span.Unmoduled)
+	half := ""
+	if sh.Span.Writes != "" {
+		half = fmt.Sprintf("; writes half %s, deletes half %s", sh.Span.Writes, sh.Span.Deletes)
+	}
+	return fmt.Sprintf(" (write span over both halves: modules %v, unmoduled %v%s)", sh.Span.Modules, sh.Span.Unmoduled, half)
 }
 
 func callsOn(calls []Call, store string) []string {
@@ -441,13 +445,15 @@ func Run(o *core.Options) int {
 	r := core.NewReport(o, "exploration",
 		"one case = (RPC of openfga.v1.OpenFGAService or authzen.v1.AuthZenService found in the generated service descriptors, request shape, target store A|B, caller in {no claims, claims with empty client id, client x, client y}, set of grant tuples stored in the access-control store, optional injected failure of the k-th / every-from-k-th read of the access-control store). "+
 			"Each case runs on a fresh memory datastore + server (access control on, fixed store and model ids). Grant sets: all subsets of size <=1 (quick) / <=3 (thorough) of {this relation on this store, a neighbouring relation on this store, this relation on the other store, module a, module b, a system relation, system admin}, "+
-			"every single other store relation and role, grants held by the other client; for Write shapes additionally every subset of {store relation, module a, module b, module a of the other store}; for ListStores/CreateStore all subsets of size <=2 (quick) / <=3 (thorough) of 13 system/store grants. "+
+			"every single other store relation and role, grants held by the other client; for Write shapes additionally every subset of {store relation, module a, module b, module a of the other store}; "+
+			"Write shapes: the full product {writes half} x {deletes half} over {absent, one tuple of module a, one tuple of module b, one tuple of a type without module} minus the empty request (15 requests), plus hand-written requests with several tuples per half (two modules / module + no module inside one half or across halves, relation-level module overriding the type's, explicit and module-less model ids); for ListStores/CreateStore all subsets of size <=2 (quick) / <=3 (thorough) of 13 system/store grants. "+
 			"A case is non-trivial when the caller has a client identity (x or y), so that the stored grants decide; distinct = distinct (method, shape, target, caller, grant set, fault).")
 	r.Assume(
 		"transport, authentication and the gRPC validator middleware are out of scope: handlers are called in-process with authclaims in the context, as the authn interceptor leaves them",
 		"the access-control model is the documented one (pkg/server/server_authz_test.go); the reference transcribes it and the method->relation table by hand (h/c26/oracle.go)",
 		"a system administrator (system:fga#admin) administers every store: the reference takes every store as belonging to system:fga",
 		"Write may read the TARGET store's authorization model before authorizing (needed to derive the modules of the request); no other target-store data may be reached by a denied call",
+		"the module span of a Write is taken over the tuples of the writes AND the deletes together: a module-level grant on M suffices only when every tuple of both halves belongs to M; one half in M with the other half in another module or on a module-less type needs the store-level relation (reference: h/c26/oracle.go spanOf over the hand-written type/relation->module table)",
 		"statement read literally for multi-module writes: 'for a write confined to one module, on that module' => a write spanning two modules needs the store-level relation even when both module grants are held",
 		"fault injection oracle is fail-closed: a failed access-control read must never yield an allow the grants do not justify, and when every read fails the call must be denied; a single failed read in a union branch made redundant by another branch that proves the grant is counted (fault_allowed_by_surviving_branch), not flagged",
 		"UpdateStore is declared by the service and not implemented by the server (codes.Unimplemented, no datastore call): checked as such; authzen GetConfiguration performs no authorization and must make no datastore call",
@@ -543,6 +549,32 @@ func Run(o *core.Options) int {
 		}
 	}
 	r.Set("request_shapes", len(shapes))
+	{
+		nWrite, cells, single, multi, unmod := 0, []string{}, 0, 0, 0
+		for i := range shapes {
+			sp := shapes[i].Span
+			if sp == nil {
+				continue
+			}
+			nWrite++
+			if sp.Writes != "" {
+				cells = append(cells, "writes="+sp.Writes+",deletes="+sp.Deletes)
+			}
+			switch {
+			case sp.Unmoduled:
+				unmod++
+			case len(sp.Modules) == 1:
+				single++
+			default:
+				multi++
+			}
+		}
+		r.Set("write_shapes", nWrite)
+		r.Set("write_half_product_cells", cells)
+		r.Set("write_shapes_confined_to_one_module", single)
+		r.Set("write_shapes_spanning_two_modules", multi)
+		r.Set("write_shapes_touching_a_module_less_type", unmod)
+	}
 	r.Set("base_cases", len(jobs))
 
 	perMethod := map[string]int64{}
@@ -568,6 +600,17 @@ func Run(o *core.Options) int {
 		}
 		for _, f := range fs {
 			r.Violate(f.sig, f.desc, c)
+		}
+		if sp := sh.Span; sp != nil && sp.Writes != "" && sp.Writes != "absent" && sp.Deletes != "absent" && c.Fault.Mode == "" && hasIdentity(c.Caller) {
+			// both halves present: cases in which only module-level grants can decide
+			g := newGrantSet(c.Grants)
+			st := storeByLabel(c.Target)
+			if !g.storeCan(st, "can_call_write", c.Caller, true) && (g.moduleCan(st, "moda", c.Caller) || g.moduleCan(st, "modb", c.Caller)) {
+				r.Count("write_both_halves_module_grant_only_cases", 1)
+				if exp {
+					r.Count("write_both_halves_module_grant_only_allowed_by_reference", 1)
+				}
+			}
 		}
 		if c.Fault.Mode == "" {
 			switch {
